@@ -84,6 +84,40 @@ Proof.
 Qed.
 Print Assumptions C02_rq_whole_spline_round_trips.
 
+(* ---- the whole piecewise-linear spline: the inverse branch (searchsorted on the cumulative table, the bin's line solved for
+   x, clamp) undoes the forward branch (floor of the bin position, interpolation, clamp) and vice versa, on the whole box, for
+   ANY unnormalised pdf and any non-degenerate box; the log-abs-dets are negatives of each other ---- *)
+From NF Require Import Model.SplineLinear Proofs.SplineLinearWhole.
+Theorem C02_linear_whole_spline_round_trips : forall (bx : @box R) (u : list R),
+  u <> nil -> b_left bx < b_right bx -> b_bottom bx < b_top bx ->
+  (forall x, b_left bx <= x <= b_right bx ->
+     linear_spline Rops true bx u (FL bx u x) = Ok (x, - FLlad bx u x)) /\
+  (forall y, b_bottom bx <= y <= b_top bx ->
+     exists x l, linear_spline Rops true bx u y = Ok (x, l) /\ (b_left bx <= x <= b_right bx) /\
+                 FL bx u x = y /\ l = - FLlad bx u x).
+Proof.
+  intros bx u H1 H2 H3. split; [intros x; apply linear_inverse_of_forward | intros y; apply linear_forward_of_inverse]; assumption.
+Qed.
+Print Assumptions C02_linear_whole_spline_round_trips.
+
+(* ---- the whole piecewise-quadratic spline (bounded form): both round trips on the whole box with negated log-abs-dets, for every
+   configuration the code accepts and ALL unnormalised parameters ---- *)
+From NF Require Import Model.SplineQuadratic Proofs.SplineQuadWhole.
+Theorem C02_quadratic_whole_spline_round_trips :
+  forall (minw minh : R) (bx : @box R) (uw uh : list R),
+  uw <> nil -> length uh = S (length uw) -> 0 <= minw -> minw * INR (length uw) <= 1 -> 0 <= minh -> minh * INR (length uw) <= 1 ->
+  b_left bx < b_right bx -> b_bottom bx < b_top bx ->
+  (forall x, b_left bx <= x <= b_right bx ->
+     quadratic_spline Rops minw minh true bx uw uh (QF minw minh bx uw uh x) = Ok (x, - QFlad minw minh bx uw uh x)) /\
+  (forall y, b_bottom bx <= y <= b_top bx ->
+     exists x l, quadratic_spline Rops minw minh true bx uw uh y = Ok (x, l) /\ (b_left bx <= x <= b_right bx) /\
+                 QF minw minh bx uw uh x = y /\ l = - QFlad minw minh bx uw uh x).
+Proof.
+  intros minw minh bx uw uh H1 H2 H3 H4 H5 H6 H7 H8.
+  split; [intros x; apply quadratic_inverse_of_forward | intros y; apply quadratic_forward_of_inverse]; assumption.
+Qed.
+Print Assumptions C02_quadratic_whole_spline_round_trips.
+
 (* ---- elementwise nonlinearities: both round trips and the negated log-abs-det, from the generated formulas ---- *)
 From NF Require Import Proofs.NonlinInv.
 Theorem C02_tanh_sigmoid_cauchy_inverses :
